@@ -41,6 +41,12 @@ func refGraph(p *scen.GraphProg) graphRef {
 				stack = append(stack, j)
 			}
 		}
+		for _, l := range p.InitLookup { // a programmatic look-up inside Init creates its target too
+			if l[0] == i && !r.created[l[1]] {
+				r.created[l[1]] = true
+				stack = append(stack, l[1])
+			}
+		}
 	}
 	for i := 0; i < p.N; i++ {
 		if !r.created[i] {
@@ -70,7 +76,7 @@ func refGraph(p *scen.GraphProg) graphRef {
 			}
 		}
 		for k := range has {
-			if others[k] == 0 {
+			if others[k] == 0 && !p.SliceOpt {
 				r.mustError = true
 				r.why = fmt.Sprintf("required slice of %s has no candidate besides its holder", scen.Name(i, p.N))
 			}
